@@ -46,7 +46,7 @@ fn mk(property: &str, mode: &str, label: &str, cfg: Cfg, prefix: Vec<Op>, alphab
         vacuum_with_sessions: false,
         census_end: false,
     };
-    let p = CrashParams { seq, mode: mode.into(), nested, triggers: ids.iter().filter(|s| s.starts_with("KT-")).cloned().collect() };
+    let p = CrashParams { seq, mode: mode.into(), nested, triggers: ids.iter().filter(|s| s.starts_with("KT-")).cloned().collect(), skip_close_with_open_session: false };
     Search {
         label: label.into(),
         engine: "crash",
@@ -223,6 +223,33 @@ pub fn c02(tier: &str) -> i32 {
         alpha5.push(Op::Rollback(1));
         alpha5.push(Op::DropSession(1));
         searches.push(mk("C02", "C02", "seed: log block zero about 70% full; committed, rolled-back and open transactions whose records straddle the block boundary", Cfg::default(), pre5, alpha5, if quick { 4 } else { 5 }, if quick { 20_000 } else { 300_000 }, false));
+    }
+    for (cache, label) in [(10000usize, "cache 10000"), (4usize, "cache 4 pages: the updated page is written back before the crash")] {
+        // UPDATEs of a transaction that is still open at the crash: recovery must put back every column it changed -
+        // several statements on one row, on different columns and on the same column, next to committed updates.
+        // (In-process the engine updates in place - the listed finding of C03 - so this search has no reads before the
+        // crash, no ROLLBACK and no checkpoint while the updater is open, and judges WITHOUT that finding as a hazard.)
+        let t3 = TableDef::simple("t", &[("k", ColTy::Int), ("v", ColTy::Text), ("w", ColTy::Text)]);
+        let f = TableDef::simple("f", &[("k", ColTy::Int), ("v", ColTy::Text)]);
+        let row = |k: i128, v: &str, w: &str| Stmt::Insert { table: "t".into(), rows: vec![vec![i(k), tx(v), tx(w)]] };
+        let up = |k: i128, set: &[(&str, &str)]| Stmt::Update { table: "t".into(), set: set.iter().map(|(c, x)| (c.to_string(), tx(x))).collect(), pred: Some(("k".into(), i(k))) };
+        let pre = vec![Op::Auto(Stmt::CreateTable(t3)), Op::Auto(Stmt::CreateTable(f)), Op::Auto(row(1, "a", "A")), Op::Auto(row(2, "b", "B")), Op::Flush];
+        let alpha_l = vec![
+            Op::Begin(1),
+            Op::In(1, up(1, &[("v", "u")])),
+            Op::In(1, up(1, &[("w", "x")])),
+            Op::In(1, up(1, &[("v", "y")])),
+            Op::In(1, up(2, &[("v", "z"), ("w", "Z")])),
+            Op::Commit(1),
+            Op::Auto(up(2, &[("w", "c")])),
+            Op::Auto(Stmt::Insert { table: "f".into(), rows: vec![vec![i(4), tx(&big('L'))]] }),
+        ];
+        let mut s = mk("C02", "C02", &format!("UPDATEs of a transaction still open at the crash: several statements on one row, other columns and the same column, next to committed updates ({label})"), Cfg { cache, ..Cfg::default() }, pre, alpha_l, if quick { 5 } else { 6 }, if quick { 20_000 } else { 300_000 }, false);
+        if let Some(h) = s.params["seq"]["hazards"].as_array_mut() {
+            h.retain(|x| x.as_str() != Some(KF_UPDATE_IN_PLACE));
+        }
+        s.params["skip_close_with_open_session"] = serde_json::Value::Bool(true);
+        searches.push(s);
     }
     run_searches(
         "C02",
